@@ -398,6 +398,19 @@ pub fn check_history(
     Ok(())
 }
 
+/// C07 at the checker's level, independent of the model: every node program is metered at one
+/// unit per operation, so the gas a successful check reports is the number of operations the
+/// VMs of this execution stepped (hook H1 counts them, compute children included).
+fn gas_conservation(v: &Verdict, rr: &RealRun) -> Option<Finding> {
+    match v {
+        Verdict::Ok { gas, .. } if *gas != rr.info.ops => Some(finding(
+            "gas-not-conserved",
+            format!("the check reports gas {gas}, its VMs executed {} operations at one unit each", rr.info.ops),
+        )),
+        _ => None,
+    }
+}
+
 /// Model equality + history, one execution.
 pub fn check_against_model(
     w: &Arc<Workload>,
@@ -413,7 +426,7 @@ pub fn check_against_model(
         Err(f) => Some(f.clone()),
         Ok(v) => match model::matches(&mo.expect, v) {
             Err(msg) => Some(finding("model-mismatch", msg)),
-            Ok(()) => check_history(w, mo, v, &rr.events).err(),
+            Ok(()) => check_history(w, mo, v, &rr.events).err().or_else(|| gas_conservation(v, &rr)),
         },
     };
     (f, rr)
